@@ -2803,8 +2803,10 @@ public:
       auto token = instr->getToken();
       switch (token) {
       case hexasm::Token::SP_VALUE: {
-        // SP value.
-        cb.genInstrData(MAX_ADDRESS - cg.getGlobalsOffset() - 1);
+        // SP value. The exit code in the entry stub runs on this initial stack
+        // pointer and passes its argument in sp[2], so leave room for the
+        // link, return value and one parameter slot below the arrays.
+        cb.genInstrData(MAX_ADDRESS - cg.getGlobalsOffset() - 1 - FB_PARAM_OFFSET_FUNC);
         // Emit data directives for globals, constants and strings.
         for (auto &data : cg.getCodeBuffer().getData()) {
           cb.insertInstr(std::move(data));
@@ -3034,7 +3036,7 @@ public:
     auto stackPointer = dynamic_cast<hexasm::Data*>(directives[1].get())->getValue();
     outs << boost::format("Memory range 0x%x - 0x%x\n") % 0 % MAX_ADDRESS;
     outs << boost::format("Stack pointer initialised to 0x%x\n") % stackPointer;
-    outs << boost::format("Arrays allocated 0x%x - 0x%x\n") % (stackPointer+1) % MAX_ADDRESS;
+    outs << boost::format("Arrays allocated 0x%x - 0x%x\n") % (stackPointer+1+FB_PARAM_OFFSET_FUNC) % MAX_ADDRESS;
     outs << "\n";
   }
   void visitPre(Proc &proc) {
